@@ -204,7 +204,8 @@ class FakeSock:
     def recv(self, size, flags=0):
         if self.closed:
             raise OSError(errno.EBADF, "bad file descriptor")
-        want = size if (flags & getattr(socket, "MSG_WAITALL", 0)) else 1
+        # a Python socket with a timeout is non-blocking underneath, where MSG_WAITALL has no effect: whatever has arrived is returned
+        want = size if (flags & getattr(socket, "MSG_WAITALL", 0)) and self._timeout is None else 1
         if size <= 0:
             return b""
         if self.client and self.net.hook is not None:
@@ -256,6 +257,12 @@ class FakeSock:
 
     def readable(self):
         return bool(self.inbuf) or self.eof or self.reset
+
+    def cut(self):
+        """environment: the network path is cut; both ends get a reset at their next operation, neither has closed anything"""
+        self.reset = True
+        if self.peer is not None:
+            self.peer.reset = True
 
 
 class FakeSelector:
